@@ -346,7 +346,7 @@ type play struct {
 
 func (p *play) config() string {
 	var sb strings.Builder
-	sb.WriteString("role person\n  :run echo hello\n  :mk echo data >file.txt; cp file.txt copy.txt; cp -b file.txt copy.txt; echo b >'notes~'; echo e >'#edit#'; echo h >'#half~'; mkdir -p 'old~'; echo k >'old~/kept.txt'; test -e pipe1 || mkfifo pipe1; mkdir -p data.v1; ln -sfn data.v1 current; ln -sfn file.txt cur.txt; ln -sfn nowhere dangling; ln -sfn pipe1 plink; ln -sfn /etc outside; ln -sfn selfloop selfloop; for n in $(seq 250); do test -e spot.done && break; sleep 0.02; done; sleep 0.2\n")
+	sb.WriteString("role person\n  :run echo hello\n  :mk echo data >file.txt; cp file.txt copy.txt; cp -b file.txt copy.txt; echo b >'notes~'; echo e >'#edit#'; echo h >'#half~'; mkdir -p 'old~'; echo k >'old~/kept.txt'; test -e pipe1 || mkfifo pipe1; mkdir -p data.v1; ln -sfn data.v1 current; ln -sfn file.txt cur.txt; ln -sfn nowhere dangling; ln -sfn pipe1 plink; ln -sfn /etc outside; ln -sfn selfloop selfloop; echo n >\"$HOME/notes.txt\"; mkdir -p ../shared; echo s >../shared/s.txt; for n in $(seq 250); do test -e spot.done && break; sleep 0.02; done; sleep 0.2\n")
 	if p.Fouled && (p.FoulKind == "action" || p.FoulKind == "early") {
 		sb.WriteString("  :bad echo failing >&2; false\n")
 	}
